@@ -30,7 +30,13 @@ class C01:
         return {"coverage": cov, "failures": failures}
 
     def opts(self, rng, i):
-        return {"many_ext": i % 3 == 0, "big": i % 5 == 0}
+        o = {"many_ext": i % 3 == 0, "big": i % 5 == 0}
+        if i % 6 == 4:
+            # requests pipelined on one TCP connection (bodies of several KiB: the reader refills its buffer while the
+            # earlier message still waits to be relayed)
+            o.update({"tcp": True, "backends": 2, "big": False, "many_ext": False,
+                      "weights": {"pipeline": 5, "svc": 2, "resp": 1}})
+        return o
 
     def nontrivial(self, c, ni):
         return any(outs for outs, _ in ni)
